@@ -70,3 +70,11 @@ claimed["C17"] = (
  "Every sequence to depth 3/4 over 20 operations (14 Add forms incl. colliding multi-output and invalid options, Remove/RemoveKeyed, AddModules): queries equal the reference registry after every step, rejected calls leave the deep dump unchanged, Build does not change the dump, no constructor of a removed/rejected registration runs, the full identity universe of the built provider equals the model, and a provider built earlier answers identically after each of 6 later mutations of the collection.",
  "depth 3 (quick) / 4 (thorough); pool of 6 types, keys {k}, groups {g}",
  "DESIGN.md 6/C17")
+claimed["C20"] = (
+ "exhaustive enumeration of module trees with a differential (twin collection) oracle on the real container",
+ "All ordered module forests with <=3 leaves at nesting <=3 and 4 leaves at nesting <=1 (thorough: 4 leaves nesting <=3, 5 leaves nesting <=2), every leaf from 7 kinds (Add ok / keyed / duplicate / invalid options, Remove, RemoveKeyed, nil), so a failing entry occurs at every position and depth; a twin collection receives the flattened calls directly: deep dumps, queries, Build verdicts, full identity-universe answers of both providers and the ModuleError chain (one wrapper per enclosing module, outermost first, cause reachable with the same errors.Is/As classes) must coincide.",
+ "bounds as stated", "DESIGN.md 6/C20")
+claimed["C18"] = (
+ "exhaustive enumeration of scope trees x context kinds x consumer shapes on the real container; identity oracle on every recorded constructor argument",
+ "All 27 context-kind combinations of a 3-deep scope chain x positional / In-struct consumers x 2 resolution orders: every recorded built-in argument of singleton / scoped / transient / initializer / group-member / nested constructors and every direct Get of Context, Scope, Provider is compared by identity with the issuing scope, its Context() and the root provider; context value inheritance, FromContext (direct and derived), cancellation propagation; 14 registration routes of the reserved types must fail without changing the collection.",
+ "scope chains of depth 3", "DESIGN.md 6/C18")
